@@ -15,6 +15,7 @@ PREFIX = {
     "um": 1e-6,
     "nm": 1e-9,
     "mm": 1e-3,
+    "m": 1.0,
     "mT": 1e-3,
     "uT": 1e-6,
     "T": 1.0,
